@@ -88,44 +88,55 @@ class Painter(object):
                         self.q('LINE (%d,%d)-(%d,%d),%d' % (x0 + a, y0 + y, x0 + b, y0 + y, colours[k]))
 
     def tiled(self, cases, w, h, colours, fill, border, label):
-        """Paint the TLC-enumerated cases, tiled over the screen, one VIEW per case."""
+        """Paint the TLC-enumerated cases, tiled over the screen, one VIEW per case.  The picture is drawn AFTER the VIEW is set
+        (VIEW itself may paint the new viewport), the screen is read once per case: S_i after VIEW_i + picture_i, so that tile i
+        is compared between S_i (before PAINT_i) and S_i+1 (after PAINT_i, VIEW_i+1, picture_i+1 - which stay off tile i)."""
         g = self.g
         gapc = colours[-1]
         pw, ph = w + 2, h + 2
         per_row, per_col = (g.W - 1) // pw, (g.H - 1) // ph
         cap = per_row * per_col
+        W = g.W
+
+        def event(i, pos, chunk, before, after):
+            (x0, y0), c = pos[i], chunk[i]
+            gb = gfx.rect(before, W, x0, y0, x0 + w - 1, y0 + h - 1)
+            ga = gfx.rect(after, W, x0, y0, x0 + w - 1, y0 + h - 1)
+            # pixels changed between the two snapshots outside tile i, not counting the next tile with its 1-pixel ring
+            outside = 0
+            if before != after:
+                d = gfx.diff(before, after, W)
+                nx0, ny0 = pos[i + 1] if i + 1 < len(pos) else (-9, -9)
+                outside = sum(1 for (x, y, v) in d if not (x0 <= x < x0 + w and y0 <= y < y0 + h)
+                              and not (nx0 - 1 <= x <= nx0 + w and ny0 - 1 <= y <= ny0 + h))
+            self.events.append({'op': 'paint', 'grid': gb, 'after': ga, 'seed': c['seed'], 'fill': fill, 'border': border, 'outside': outside,
+                                'tag': self.tag, 'label': label, 'n': c['n'],
+                                'asdrawn': gb == [[colours[v] for v in row] for row in c['grid']]})
+
         for base in range(0, len(cases), cap):
             chunk = cases[base:base + cap]
             self.q('VIEW')
             self.q('LINE (0,0)-(%d,%d),%d,BF' % (g.W - 1, g.H - 1, gapc))
-            pos = []
-            for i, c in enumerate(chunk):
-                x0, y0 = 1 + (i % per_row) * pw, 1 + (i // per_row) * ph
-                pos.append((x0, y0))
-                self.draw_grid(x0, y0, c['grid'], colours)
-            self.flush()
-            before = g.visible()
-            for (x0, y0), c in zip(pos, chunk):
+            pos = [(1 + (i % per_row) * pw, 1 + (i // per_row) * ph) for i in range(len(chunk))]
+            prev = None
+            for i, ((x0, y0), c) in enumerate(zip(pos, chunk)):
                 sx, sy = c['seed']
-                if (c['n'] + sx) % 3 == 0:
-                    self.q('VIEW SCREEN (%d,%d)-(%d,%d)' % (x0, y0, x0 + w - 1, y0 + h - 1))
-                    self.q('PAINT (%d,%d),%d,%d' % (x0 + sx, y0 + sy, fill, border))
+                absolute = (c['n'] + sx) % 3 == 0
+                self.q('VIEW %s(%d,%d)-(%d,%d)' % ('SCREEN ' if absolute else '', x0, y0, x0 + w - 1, y0 + h - 1))
+                ox, oy = (x0, y0) if absolute else (0, 0)
+                self.draw_grid(ox, oy, c['grid'], colours)
+                self.flush()
+                snap = g.visible()
+                if prev is not None:
+                    event(i - 1, pos, chunk, prev, snap)
+                prev = snap
+                if fill == border and c['n'] % 2 == 0:
+                    self.q('PAINT (%d,%d),%d' % (ox + sx, oy + sy, fill))
                 else:
-                    self.q('VIEW (%d,%d)-(%d,%d)' % (x0, y0, x0 + w - 1, y0 + h - 1))
-                    self.q('PAINT (%d,%d),%d,%d' % (sx, sy, fill, border) if fill != border or (c['n'] % 2) else 'PAINT (%d,%d),%d' % (sx, sy, fill))
+                    self.q('PAINT (%d,%d),%d,%d' % (ox + sx, oy + sy, fill, border))
             self.q('VIEW')
             self.flush()
-            after = g.visible()
-            inside = 0
-            for (x0, y0), c in zip(pos, chunk):
-                gb = gfx.rect(before, g.W, x0, y0, x0 + w - 1, y0 + h - 1)
-                ga = gfx.rect(after, g.W, x0, y0, x0 + w - 1, y0 + h - 1)
-                inside += sum(1 for ra, rb in zip(ga, gb) for a, b in zip(ra, rb) if a != b)
-                self.events.append({'op': 'paint', 'grid': gb, 'after': ga, 'seed': c['seed'], 'fill': fill, 'border': border, 'outside': 0,
-                                    'tag': self.tag, 'label': label, 'n': c['n'],
-                                    'asdrawn': gb == [[colours[v] for v in row] for row in c['grid']]})
-            total = len(gfx.diff(before, after, g.W))
-            self.events.append({'op': 'gaps', 'n': total - inside, 'tag': self.tag, 'label': label})
+            event(len(chunk) - 1, pos, chunk, prev, g.visible())
 
     def picture(self, rng, maxw, maxh):
         """One random picture in a random viewport."""
@@ -211,7 +222,10 @@ class Painter(object):
         self.q('VIEW')
         self.q('LINE (%d,%d)-(%d,%d),%d,BF' % (max(0, vx0 - 3), max(0, vy0 - 3), min(g.W - 1, vx0 + w + 2), min(g.H - 1, vy0 + h + 2),
                                                 rng.choice(openc)))
-        self.draw_grid(vx0, vy0, grid, colours)
+        ox, oy = (vx0, vy0) if absolute else (0, 0)
+        # the viewport first (VIEW may paint the new viewport), then the picture in viewport coordinates
+        self.q('VIEW %s(%d,%d)-(%d,%d)' % ('SCREEN ' if absolute else '', vx0, vy0, vx0 + w - 1, vy0 + h - 1))
+        self.draw_grid(ox, oy, grid, colours)
         self.flush()
         before = g.visible()
         k = rng.random()
@@ -222,8 +236,6 @@ class Painter(object):
             sx, sy = rng.choice([0, w - 1]), rng.choice([0, h - 1])
         else:
             sx, sy = rng.choice([-1, w, rng.randint(-5, w + 5)]), rng.choice([-1, h, rng.randint(-5, h + 5)])
-        ox, oy = (vx0, vy0) if absolute else (0, 0)
-        self.q('VIEW %s(%d,%d)-(%d,%d)' % ('SCREEN ' if absolute else '', vx0, vy0, vx0 + w - 1, vy0 + h - 1))
         if fill == border and rng.random() < 0.5:
             st = 'PAINT (%d,%d),%d' % (sx + ox, sy + oy, fill)
         else:
